@@ -429,10 +429,11 @@ func Replay(c Case) Result {
 		cancel()
 		if err == nil {
 			r.log(Event{K: "send", Tag: "u-after", Res: "ok"})
+			waitFor(func() bool { return r.has("recv", "u-after") }, 2*time.Second)
 		} else {
 			r.log(Event{K: "send", Tag: "u-after", Res: "err"})
 		}
-		time.Sleep(20 * time.Millisecond)
+		time.Sleep(5 * time.Millisecond)
 	}
 	closed := make(chan struct{})
 	go func() { _ = client.Close(); close(closed) }()
